@@ -335,6 +335,88 @@ theorem restore_makes_placement_irrelevant (insideForEach : Bool) (src : Src α)
     consumeAtWith true insideForEach src rep m = consumeAtWith true false src rep m := by
   simp [consumeAtWith]
 
+/-! ### several consumers of the same dataset do not influence each other -/
+
+/-- **Independence.** Under *every* interleaving of the operations of two consumers (values taken,
+    iterators rebuilt by `for_each`), what consumer A observes is exactly what it would observe
+    alone with its own operations — whatever B's source, state and operations are; and vice
+    versa.  The final states are the stand-alone final states as well. -/
+theorem consumers_independent (srcA srcB : Src α) (a b : Iter α) (ops : List (Bool × Op)) :
+    projOuts true (runTwo srcA srcB (a, b) ops).1 = (runOps srcA a (projOps true ops)).1
+    ∧ projOuts false (runTwo srcA srcB (a, b) ops).1 = (runOps srcB b (projOps false ops)).1
+    ∧ (runTwo srcA srcB (a, b) ops).2 = ((runOps srcA a (projOps true ops)).2, (runOps srcB b (projOps false ops)).2) := by
+  induction ops generalizing a b with
+  | nil => exact ⟨rfl, rfl, rfl⟩
+  | cons p ops ih =>
+    obtain ⟨who, op⟩ := p
+    cases who with
+    | true =>
+      obtain ⟨h1, h2, h3⟩ := ih (stepOp srcA a op).2 b
+      refine ⟨?_, ?_, ?_⟩
+      · simp [runTwo, projOuts, projOps, runOps] at h1 ⊢
+        exact h1
+      · simp only [runTwo, projOuts, projOps] at h2 ⊢
+        simpa using h2
+      · simp only [runTwo, projOps] at h3 ⊢
+        simp [runOps, h3]
+    | false =>
+      obtain ⟨h1, h2, h3⟩ := ih a (stepOp srcB b op).2
+      refine ⟨?_, ?_, ?_⟩
+      · simp only [runTwo, projOuts, projOps] at h1 ⊢
+        simpa using h1
+      · simp [runTwo, projOuts, projOps, runOps] at h2 ⊢
+        exact h2
+      · simp only [runTwo, projOps] at h3 ⊢
+        simp [runOps, h3]
+
+/-- The k-th value of consumer A does not depend on the operations of consumer B: two schedules
+    with the same A-operations give A the same results, for any B-sources, B-states, B-operations. -/
+theorem kth_of_A_independent_of_B (srcA srcB srcB' : Src α) (a b b' : Iter α)
+    (ops ops' : List (Bool × Op)) (h : projOps true ops = projOps true ops') :
+    projOuts true (runTwo srcA srcB (a, b) ops).1 = projOuts true (runTwo srcA srcB' (a, b') ops').1 := by
+  rw [(consumers_independent srcA srcB a b ops).1, (consumers_independent srcA srcB' a b' ops').1, h]
+
+/-- a consumer that only takes values sees `runN` -/
+theorem runOps_next_only (src : Src α) (it : Iter α) (m : Nat) :
+    (runOps src it (List.replicate m Op.next)).1 = (runN src it m).1.map some := by
+  induction m generalizing it with
+  | zero => rfl
+  | succ m ih => simp [List.replicate_succ, runOps, stepOp, runN, ih]
+
+/-- Hence, in every interleaving with any other consumer of the same file: a `Dataset.iterate`
+    consumer that takes `m` values gets `recs[k mod n]` as its k-th value (each consumer has its own
+    position)… -/
+theorem interleaved_iter_kth (recs : List α) (hn : 0 < recs.length) (srcB : Src α) (b : Iter α)
+    (ops : List (Bool × Op)) (m : Nat) (hA : projOps true ops = List.replicate m Op.next) :
+    projOuts true (runTwo (linearSrc recs) srcB (create (linearSrc recs) true, b) ops).1
+      = (List.range m).map (fun k => some (.value (recs[k % recs.length]'(Nat.mod_lt _ hn)))) := by
+  rw [(consumers_independent _ srcB _ b ops).1, hA, runOps_next_only, iter_run recs hn m]
+  simp
+
+/-- …and every cycle of `n` values of a `Dataset.shuffle` consumer is a permutation of the file,
+    whatever the other consumer does in between (new cycles, new iterators over the same file). -/
+theorem interleaved_shuffle_cycle_perm (recs : List α) (srcA : Src α) (hn : 0 < recs.length)
+    (hperm : ∀ j, (srcA j).Perm recs) (srcB : Src α) (b : Iter α) (ops : List (Bool × Op)) (c : Nat)
+    (hA : projOps true ops = List.replicate ((c + 1) * recs.length) Op.next) :
+    ∃ pass : List α, ((projOuts true (runTwo srcA srcB (create srcA true, b) ops).1).drop (c * recs.length))
+        = pass.map (fun x => some (.value x)) ∧ pass.Perm recs := by
+  refine ⟨srcA c, ?_, hperm c⟩
+  rw [(consumers_independent srcA srcB _ b ops).1, hA, runOps_next_only, Proofs.C17.runN_eq_map_nth]
+  have hlen : ∀ j, (srcA j).length = recs.length := fun j => (hperm j).length_eq
+  apply List.ext_getElem
+  · simp [hlen c, Nat.add_mul]
+  · intro i hi1 hi2
+    have hi : i < recs.length := by simpa [hlen c] using hi2
+    simp only [List.getElem_drop, List.getElem_map, List.getElem_range]
+    rw [Proofs.C17.nth_create srcA recs.length hn hlen c i hi]
+    have : i < (srcA c).length := by rw [hlen c]; exact hi
+    simp [Out.ofOption, this]
+
+example : projOuts true (runTwo (linearSrc [1, 2, 3]) (shuffledSrc [1, 2, 3] (fun j => [j, j]))
+      (create (linearSrc [1, 2, 3]) true, create (shuffledSrc [1, 2, 3] (fun j => [j, j])) true)
+      [(true, .next), (false, .next), (false, .renew true), (true, .next), (false, .next), (true, .next), (true, .next)]).1
+    = [some (.value 1), some (.value 2), some (.value 3), some (.value 1)] := by decide
+
 /-- **update mode: one row per input record, in input order, and it stops** — the first
     iteration emits the `n` rows; because the single shared iterator does not repeat, any
     further iteration of the recipe emits nothing. -/
